@@ -25,6 +25,8 @@ pub struct Faults {
   pub step_bound: Option<u64>,
   /// Fail the next `Resource::write`.
   pub fail_next_res_write: bool,
+  /// Count (and possibly crash at) entries of user code other than task operations.
+  pub crash_in_user_code: bool,
 }
 
 pub const STEP_BOUND_MARKER: &str = "PV-STEP-BOUND-EXCEEDED";
@@ -45,6 +47,14 @@ pub fn tick() {
   });
   if over { panic!("{}", STEP_BOUND_MARKER); }
   if do_panic { panic!("{}", INJECTED_PANIC_MARKER); }
+}
+
+/// Called at every entry of user code other than task operations (resource open, checker stamp/check, write function):
+/// further crash points for C19. Only counted while `crash_in_user_code` is on, so that the numbering of task
+/// operations in all other runs is unaffected.
+pub fn tick_user() {
+  let on = FAULTS.with(|f| f.borrow().crash_in_user_code);
+  if on { tick(); }
 }
 
 // ---------------------------------------------------------------------------------------------------------------
@@ -95,6 +105,7 @@ impl Resource for Res {
   type Error = CellErr;
 
   fn read<'rs, RS: ResourceState<Self>>(&self, state: &'rs mut RS) -> Result<CellReader<'rs>, CellErr> {
+    tick_user();
     let store: &'rs CellStore = state.get_or_set_default_mut::<CellStore>();
     let serial = log::serial();
     log::push(Ev::ResRead { res: self.0, reader: serial });
@@ -102,6 +113,7 @@ impl Resource for Res {
   }
 
   fn write<'r, RS: ResourceState<Self>>(&'r self, state: &'r mut RS) -> Result<CellWriter<'r>, CellErr> {
+    tick_user();
     let fail = FAULTS.with(|f| std::mem::take(&mut f.borrow_mut().fail_next_res_write));
     if fail {
       let n = log::serial();
@@ -150,6 +162,7 @@ impl ResourceChecker<Res> for Chk {
   type Error = ChkErr;
 
   fn stamp<RS: ResourceState<Res>>(&self, resource: &Res, state: &mut RS) -> Result<St, ChkErr> {
+    tick_user();
     let now = state.get_or_set_default_mut::<CellStore>().get(resource.0);
     if self.fail_stamp {
       let n = log::serial();
@@ -162,6 +175,7 @@ impl ResourceChecker<Res> for Chk {
   }
 
   fn stamp_reader(&self, resource: &Res, reader: &mut CellReader<'_>) -> Result<St, ChkErr> {
+    tick_user();
     if self.fail_stamp {
       let n = log::serial();
       log::push(Ev::StampReader { owner: self.owner, kind: self.kind, res: resource.0, reader: reader.serial, gets_before: reader.gets, stamp: None });
@@ -173,6 +187,7 @@ impl ResourceChecker<Res> for Chk {
   }
 
   fn stamp_writer(&self, resource: &Res, writer: CellWriter<'_>) -> Result<St, ChkErr> {
+    tick_user();
     let now = writer.peek();
     if self.fail_stamp {
       let n = log::serial();
@@ -185,6 +200,7 @@ impl ResourceChecker<Res> for Chk {
   }
 
   fn check<RS: ResourceState<Res>>(&self, resource: &Res, state: &mut RS, stamp: &St) -> Result<Option<impl Debug>, ChkErr> {
+    tick_user();
     let now = state.get_or_set_default_mut::<CellStore>().get(resource.0);
     let armed = FAULTS.with(|f| f.borrow().armed_checks.contains(&(self.owner, resource.0)));
     if armed {
@@ -222,11 +238,13 @@ impl Debug for OSt { fn fmt(&self, f: &mut fmt::Formatter<'_>) -> fmt::Result { 
 impl OutputChecker<u32> for OChk {
   type Stamp = OSt;
   fn stamp(&self, output: &u32) -> OSt {
+    tick_user();
     let s = self.kind.abs(*output);
     log::push(Ev::OStamp { owner: self.owner, ok: self.kind, target: self.target, out: *output, stamp: s });
     OSt(s)
   }
   fn check(&self, output: &u32, stamp: &OSt) -> Option<impl Debug> {
+    tick_user();
     let s = self.kind.abs(*output);
     let consistent = s == stamp.0;
     log::push(Ev::OCheck { owner: self.owner, ok: self.kind, target: self.target, out: *output, stamp: stamp.0, consistent });
